@@ -48,7 +48,12 @@ MANIFEST = dict(
          "observed); user callables from a finite catalogue; Regex group capture and chain_child scope effects "
          "belong to C07. Hypothesis of the two-valued reading: Optional defaults are plain values (a T default "
          "that cannot be evaluated ends the match in its PathAccessError). Copies (copy / deepcopy / pickle) "
-         "of patterns with an `M` operand are inside the correspondence since the repair 8acd988 (F43).",
+         "of patterns with an `M` operand are inside the correspondence since the repair 8acd988 (F43). "
+         "The reference shares Python-level primitives with the model (pyEq / pyCmp / isInst / predApply / "
+         "tGet / reMatches): theorems say nothing about those, the correspondence does. Outside the domain: "
+         "bytes targets, NaN, objects with their own __eq__ / __bool__, IntEnum members, key patterns that "
+         "transform the key; a list / tuple / set / dict VALUE in pattern position is a container pattern "
+         "(the driver rejects such a `lit`).",
     technique='Lean 4 refinement proof (code-shaped matcher = documented conformance relation) + facts obligations '
               'by decide + differential correspondence (single calls, call sequences, histories with '
               'abc.register, copied patterns)',
@@ -70,7 +75,13 @@ RULE = ('type-directed: a pattern of depth <= 4 (quick) / 5 (thorough) over {lit
         'calls on instances of a few per-case classes (subclass chains) interleaved with abc.register(cls) calls - '
         'every target is matched before and after the registrations; COPIES: a fraction of all cases uses '
         'copy.copy / copy.deepcopy / pickle round trip of the Match object instead of the object; the corpus holds '
-        'the full type-atom x pool-value truth table. non-trivial = the pattern has a container or combinator node; '
+        'the full type-atom x pool-value truth table; CALLABLES come as named functions, callable instances and '
+        'functools.partial objects (no __name__) at every position; Check leaves with list / tuple sequence '
+        'arguments and failing validators; Optional / Match defaults as plain values, Val, T and list / tuple '
+        'displays holding T; TARGETS include instances of user subclasses of dict / list / tuple / set / '
+        'frozenset / str at random positions; every call of every mode (single, sequence, history) is observed '
+        'in full: glom(), verify(), matches(), snapshot of the target afterwards, `result is target`. '
+        'non-trivial = the pattern has a container or combinator node; '
         'distinct = distinct (pattern, default, target | targets | history, copy)')
 TRUSTED = base.TRUSTED + ['set / frozenset iteration order as observed in the same process (shipped to the model)',
                           '`re` on the catalogue patterns (sequences of [a-z], \\d, [^@], ., literal chars, each '
@@ -937,7 +948,7 @@ def generate(rng, tier, scale, **focus):
 
 def _generate(rng, tier, scale, **focus):
     quick = tier == 'quick'
-    n = (900 if quick else 30000) * scale
+    n = (800 if quick else 30000) * scale
     maxd = 4 if quick else 5
     yield from corpus_cases()
     for _ in range(n):
@@ -986,7 +997,7 @@ def _generate(rng, tier, scale, **focus):
             ts = list(uniq)
             rng.shuffle(ts)
             yield with_copy(rng, {'spec': spec, 'default': default, 'targets': ts})
-    yield from hist_cases(rng, (150 if quick else 6000) * scale, maxd)
+    yield from hist_cases(rng, (120 if quick else 6000) * scale, maxd)
 
 
 def corpus():
